@@ -10,21 +10,22 @@ from engine.loader import AnalysisError
 from . import shape as S
 
 META = {
-    'text': 'Static taint and doc-shape rules: (a) comment text reaches the output only through the comment builder (taint '
-            'from the comment wrappers / annotations to commentdoc, re-annotation or the trailing_comment keyword - any flow '
-            'into a text position is a violation); (b) every physical comment line starts with "#": each line document '
-            'begins with "# ", the broken alternative of inter-word whitespace is HARDLINE "# ", lines are joined by '
-            'HARDLINE under one COMMENT_SINGLE annotation; (c) abstract interpretation of sequence_of_docs, build_fncall, '
-            'the dict printer and the top-level wrapper over all commented/plain element patterns up to 3 elements and all '
-            'flat/break assignments of their groups shows that every comment document is followed by a line break or the '
-            'end of the document; (d) indexing into the words of a comment line is length-guarded; (e) commented and '
-            'uncommented variants carry the same separators and content (flat/broken agreement); (f) a printer that '
-            'accepts trailing_comment uses it on every return path. Word order inside fill and tokenizer-level validity '
-            'are NOT decided.',
-    'note': 'small-scope abstraction of element lists (0..3) is representative because the loop bodies look at the index only '
-            'through "last" (checked); trailing comments dropped by six printers/paths are listed known findings',
-    'technique': 'static analysis: abstract interpretation of the doc builders over a doc-shape term domain with follow-set '
-                 'queries per layout mode; def-use taint; guard facts',
+    'text': 'Decided on interpreted code: (b,d) commentdoc on seventeen small concrete comment texts (one word, several, le'
+            'ading / trailing / wide blanks, tabs, several lines, blank lines, whitespace only): in every layout of the ret'
+            'urned document, before and after normalisation, with every blank of the fill flat or broken, every line starts'
+            ' with "#", shows exactly the words of the text in order, and separate lines stay separate; the empty text is r'
+            'ejected and every call site hands over a text known to be non-empty; (g) comment() / trailing_comment() wrappe'
+            'rs in every small nesting are peeled off by unwrap_comments into their own slots, a comment is attached to the'
+            ' printed document as a comment annotation, a trailing comment reaches the printer; (c,e) abstract interpretati'
+            'on of the sequence, call and dict builders over all element patterns up to 3: in every layout a comment is fol'
+            'lowed by a line break before any code, and the separators are where the uncommented rendering has them; normal'
+            'isation preserves forced breaks (document model); (f) every printer that declares trailing_comment shows it fo'
+            'r every kind of input (findings keyed by printer and kind of input); (a) comment text reaches the output only '
+            'through the comment builders (def-use taint).',
+    'note': 'small-scope abstraction of element lists (0..3) is representative because the loop bodies look at the index on'
+            'ly through "last" (checked); trailing comments dropped by six printers/paths are listed known findings',
+    'technique': 'static analysis: abstract interpretation (doc-shape domain; concrete small-scope interpretation of commentdoc '
+                 'and the wrappers), def-use taint',
 }
 
 TC = 'trailing_comment'
